@@ -32,6 +32,7 @@ type LoopSpec struct {
 	Invariants []*Clause
 	Decreases  *Clause
 	Unroll     bool
+	Exhaustive *Clause // loop N exhaustive: the loop is never left by `break` (only by exhausting its range or by return)
 }
 
 type Contract struct {
@@ -316,6 +317,10 @@ func (cs *ContractSet) parseFile(pkg, file, text string) error {
 				ls.Decreases = c
 			case "unroll":
 				ls.Unroll = true
+			case "exhaustive":
+				c := mk("exhaustive")
+				c.Loop = n
+				ls.Exhaustive = c
 			default:
 				return fmt.Errorf("%s:%d: unknown loop clause %q", file, ln, f[1])
 			}
